@@ -150,19 +150,17 @@ def lex_order(prog, out):
             if el.get("k") == "Call" and (hir.callee(el) or "").endswith("nom::branch::alt"):
                 res.extend(flatten(el))
                 continue
-            mx = el.get("mx") or []
-            inner_mx = None
-            for n in hir.nodes(el):
-                for m in (n.get("mx") or []):
-                    if m in ("lex_symbol!", "lex_keyword!"):
-                        inner_mx = m
-            if inner_mx:
-                vs = set()
-                for n in hir.nodes(el, "Path"):
-                    r = n["res"]
-                    if r.get("ctor_of", "").startswith(TT + "::"):
-                        vs.add(last(r["ctor_of"]))
-                res.append((inner_mx.rstrip("!"), "|".join(sorted(vs)), el))
+            # an alternative that names TokenType variants is a static-token lexer (macro expansion or helper call);
+            # it is a *keyword* lexer iff it carries a boundary look-ahead (`peek`), found in the expansion or in the helper
+            vs = set()
+            for n in hir.nodes(el, "Path"):
+                r = n["res"]
+                if r.get("ctor_of", "").startswith(TT + "::"):
+                    vs.add(last(r["ctor_of"]))
+            if vs:
+                guarded = any(n.get("k") == "Call" and (hir.callee(n) or "").endswith("nom::combinator::peek")
+                              for n in hir.nodes_deep(prog, el, 3))
+                res.append(("lex_keyword" if guarded else "lex_symbol", "|".join(sorted(vs)), el))
             else:
                 d = hir.path_def(el)
                 name = None
@@ -231,7 +229,7 @@ def rule_tables(prog):
         ok = len(occ) == 1 and (want is None or occ[0][1] == want)
         out.add("<Token as Lexer>::lex", "T3 %s lexed once via %s" % (v, want), ok,
                 c.loc(occ[0][2]["sp"]) if occ else loc_lex,
-                "token `%s` (%r) must occur exactly once in alt(..) through %s!; found %s"
+                "token `%s` (%r) must occur exactly once in alt(..), %s = with/without the whole-word look-ahead; found %s"
                 % (v, s, want, [(k) for _, k, _ in occ]), ("T3", "lexer"))
 
     def first(name):
@@ -320,19 +318,37 @@ def rule_tables(prog):
     return out
 
 
+_tag_cache = {}
+
+
 def tag_parsers(prog):
-    """tag_parser! expansions: fn path -> TokenType variant it accepts."""
+    """Single-token parsers (the `tag_parser!` family, found by role): fn(TokenStream) -> IResult<Token> in the parser
+    module that tests the token type against exactly one TokenType variant (inline `matches!` or a predicate closure
+    handed to a shared helper).  fn path -> TokenType variant it accepts."""
+    if id(prog) in _tag_cache:
+        return _tag_cache[id(prog)]
     res = {}
-    for b in prog.front.bodies:
-        if "tag_parser!" not in (b.get("mx") or []):
+    c = prog.front
+    for b in c.bodies:
+        f = c.file_of(b["sp"])
+        if b["k"] != "fn" or "sig_in" not in b or "/tests" in f or not b["p"].startswith("spl_frontend::parser"):
             continue
-        for m in hir.nodes(b["body"], "Match"):
-            if "matches!" in (m.get("mx") or []):
-                for arm in m["arms"]:
-                    for alt in hir.pat_alternatives(arm["pat"]):
-                        v = hir.pat_variant(alt)
-                        if v and v.startswith(TT + "::"):
-                            res[b["p"]] = last(v)
+        ins = [c.tstr(t) for t in b["sig_in"]]
+        out = c.tstr(b["sig_out"])
+        if len(ins) != 1 or "TokenStream" not in ins[0] or "tokens::Token" not in out.replace("tokens::TokenStream", "") or "ast::" in out:
+            continue
+        vs = set()
+        for n in hir.nodes(b["body"]):
+            pats = [a["pat"] for a in n["arms"]] if n.get("k") == "Match" else [n["pat"]] if n.get("k") == "LetExpr" else []
+            for pt in pats:
+                for alt in hir.pat_alternatives(pt):
+                    v = hir.pat_variant(alt)
+                    if v and v.startswith(TT + "::"):
+                        vs.add(last(v))
+        if len(vs) == 1:
+            res[b["p"]] = vs.pop()
+    _tag_cache.clear()
+    _tag_cache[id(prog)] = res
     return res
 
 
